@@ -272,6 +272,9 @@ def run_check(prop, tier):
     results = {}
     redo = {}
     harness = []
+    stats = {}
+    inter = set()
+    samples = []
     done_scen = 0
     pool = _pool(jobs)
     try:
@@ -295,6 +298,15 @@ def run_check(prop, tier):
                     raise
                 for it in items:
                     if k < n_first:
+                        # fold the bulky parts at once (millions of scenarios in the thorough tier)
+                        for kk, vv in it.pop('stats').items():
+                            stats[kk] = stats.get(kk, 0) + vv
+                        inter.update(it.pop('interleavings'))
+                        if it.get('sample') is not None and len(samples) < 4:
+                            samples.append(it['sample'])
+                        it.pop('sample', None)
+                        if not (it['violations'] or it['harness']):
+                            it.pop('scenario', None)
                         results[it['index']] = it
                         done_scen += 1
                     else:
@@ -310,13 +322,10 @@ def run_check(prop, tier):
         pool.shutdown(wait=False, cancel_futures=True)
 
     # -------- aggregate
-    stats = {}
     runs = 0
     nontrivial = 0
     sim_time = 0.0
     seen_sdig = set()
-    inter = set()
-    samples = []
     viols = []
     for idx in sorted(results):
         it = results[idx]
@@ -327,11 +336,6 @@ def run_check(prop, tier):
         if it['sdig'] not in seen_sdig:
             seen_sdig.add(it['sdig'])
             nontrivial += it['nontrivial']
-        for k, v in it['stats'].items():
-            stats[k] = stats.get(k, 0) + v
-        inter.update(it['interleavings'])
-        if it.get('sample') is not None and len(samples) < 4:
-            samples.append(it['sample'])
         for v in it['violations']:
             viols.append((idx, v))
     nondet = []
